@@ -24,6 +24,7 @@ type OwnE2E struct {
 	WS     *WSCase         `json:"ws,omitempty"`
 	HTTP   *HTTPCase       `json:"http,omitempty"`
 	Out    *core.OutCase   `json:"out,omitempty"`
+	Dial   *WSDialCase     `json:"dial,omitempty"`
 }
 
 func genOwnE2E(r *simrt.Rand, tier string, idx int) *OwnE2E {
@@ -31,6 +32,17 @@ func genOwnE2E(r *simrt.Rand, tier string, idx int) *OwnE2E {
 		// the core engine's write queue: the outbound scenarios of C01 with the tracker as
 		// mempool.DefaultMemPool and an OnWrittenSize hook that reads what it is given
 		return &OwnE2E{Out: core.Prop("C01").Gen(r, tier, idx).(*core.OutCase)}
+	}
+	switch idx % 16 {
+	case 7:
+		// both ends nbio: websocket.Dialer against the Upgrader
+		return &OwnE2E{Dial: genWSDialCase(r, tier)}
+	case 11:
+		// nbhttp.Client / ClientConn against the scripted server
+		c := genHTTPServerCase(r, tier)
+		genCliPlan(r, c)
+		c.Track = true
+		return &OwnE2E{HTTP: c}
 	}
 	switch idx % 4 {
 	case 2:
@@ -55,6 +67,10 @@ func runOwnE2E(t *testing.T, ci interface{}, trace bool) *common.Outcome {
 		o = runWSAs(t, c.WS, trace, "C11")
 	case c.HTTP != nil:
 		o = runHTTPAs(t, c.HTTP, trace, "C11")
+	case c.Dial != nil:
+		untrack := tracking(true)
+		o = runWSDial(t, c.Dial, trace)
+		untrack(o, "C11")
 	case c.Out != nil:
 		untrack := tracking(true)
 		stale := ""
@@ -97,6 +113,10 @@ func shrinkOwnE2E(ci interface{}) []interface{} {
 	case c.HTTP != nil:
 		for _, x := range shrinkHTTP(c.HTTP) {
 			out = append(out, &OwnE2E{HTTP: x.(*HTTPCase)})
+		}
+	case c.Dial != nil:
+		for _, x := range shrinkWSDial(c.Dial) {
+			out = append(out, &OwnE2E{Dial: x.(*WSDialCase)})
 		}
 	case c.Out != nil:
 		if sh := core.Prop("C01").Shrink; sh != nil {
